@@ -1025,6 +1025,9 @@ func (db *DB) reWriteData(pendingMergeEntries []*Entry) error {
 
 	dataFile, err := NewDataFile(db.getDataPath(db.MaxFileID+1), db.opt.SegmentSize, db.opt.RWMode)
 	if err != nil {
+		// release the write lock taken by Begin, or every later
+		// transaction blocks forever
+		tx.Rollback()
 		db.isMerging = false
 		return err
 	}
